@@ -92,6 +92,8 @@ def _run_history(sp, prog, requested, others, call, A, e, n_calls, kind, spec, e
         gid = {n: id(prog[n].grad._storage) if prog[n].grad is not None else None for n in requested}
         call()
         hist.append("call")
+        if len(A.seen) <= c:
+            return obs + [Ob("requested_grads_receive_the_update", False, cex)]  # the aggregator was not even called: nothing was deposited
         upd = _update(prog, requested, A, kind)
         if upd is None:
             return [Ob("update_identified", False, cex)]
@@ -171,8 +173,9 @@ def case_bw(sp):
         set_grad(prog["a"], "a")
     set_grad(prog["c"], "c")
     A = CachedAStar() if cached else AStar()
-    call = lambda: backward([prog["y1"], prog["y2"]], A, inputs=[prog["a"], prog["b"]], retain_graph=True, parallel_chunk_size=k)
-    return _run_history(sp, prog, requested, others, call, A, e, n_calls, "backward", spec, dict(chunk=k, pre=pre, cached=cached, edit=e))
+    gen = choice(2, "inputs_as_generator") == 1
+    call = lambda: backward([prog["y1"], prog["y2"]], A, inputs=(x for x in [prog["a"], prog["b"]]) if gen else [prog["a"], prog["b"]], retain_graph=True, parallel_chunk_size=k)
+    return _run_history(sp, prog, requested, others, call, A, e, n_calls, "backward", spec, dict(chunk=k, pre=pre, cached=cached, edit=e, generator=gen))
 
 
 def case_mtl(sp):
